@@ -11,7 +11,7 @@
 
 use std::sync::Mutex;
 
-use e5_harness::*;
+use crate::harness::*;
 use hydro_lang::live_collections::stream::{ExactlyOnce, TotalOrder};
 use hydro_lang::location::MemberId;
 use hydro_lang::prelude::*;
